@@ -1,5 +1,5 @@
 use std::{
-    collections::HashMap,
+    collections::{hash_map::Entry, HashMap},
     fmt::Debug,
     hash::Hash,
     io::Read,
@@ -137,11 +137,33 @@ where
     }
 
     fn collect_item_keys(&self) -> HashMap<ast::ItemKey, ast::ResolvedItemKind> {
-        self.lalrpop_results
-            .values()
-            .flat_map(|fr| &fr.ast)
-            .map(|f| (f.get_key(), f.item.get_kind()))
-            .collect()
+        // Note: if several files define the same key, the kind is chosen independently of the
+        // (random) iteration order of the map
+        fn rank(kind: &ast::ResolvedItemKind) -> u8 {
+            match kind {
+                ast::ResolvedItemKind::Interface => 0,
+                ast::ResolvedItemKind::Parcelable => 1,
+                ast::ResolvedItemKind::Enum => 2,
+                ast::ResolvedItemKind::ForwardDeclaredParcelable => 3,
+                ast::ResolvedItemKind::UnknownImport => 4,
+            }
+        }
+
+        let mut keys: HashMap<ast::ItemKey, ast::ResolvedItemKind> = HashMap::new();
+        for f in self.lalrpop_results.values().flat_map(|fr| &fr.ast) {
+            let kind = f.item.get_kind();
+            match keys.entry(f.get_key()) {
+                Entry::Occupied(mut e) => {
+                    if rank(&kind) < rank(e.get()) {
+                        e.insert(kind);
+                    }
+                }
+                Entry::Vacant(e) => {
+                    e.insert(kind);
+                }
+            }
+        }
+        keys
     }
 }
 
